@@ -3,7 +3,7 @@ import RSocketModel.SendQueue
 open RSocketModel RSocketModel.SendQueue
 namespace Driver
 
-def parseSrc (t : String) : Option Src :=
+def parseSrc (t : String) : Option (Src Nat) :=
   match t.splitOn ":" with
   | [sid, labels] => do
     let s ← sid.toNat?
@@ -11,7 +11,7 @@ def parseSrc (t : String) : Option Src :=
     pure { sid := s, frags := ls }
   | _ => none
 
-def parseSqEv (t : String) : Option Ev :=
+def parseSqEv (t : String) : Option (Ev Nat) :=
   if t == "s" then some .step
   else if t.startsWith "e" then (parseSrc (t.drop 1).toString).map .enq
   else if t.startsWith "p" then (parseSrc (t.drop 1).toString).map .enqFront
